@@ -248,6 +248,9 @@ class SimTransport:
         self.actor = actor or node
         self.closed = False
         self.blackhole = False
+        # the asyncio.DatagramProtocol this transport belongs to (set by the engine): where a failed send is reported,
+        # as the selector transport does (OSError of sendto() -> protocol.error_received(exc), nothing is raised)
+        self.proto = None
 
     def sendto(self, data, addr=None):
         if self.blackhole:
@@ -440,6 +443,8 @@ class Sim:
         self.stats["sent"] += 1
         for h in self.tx_hooks:
             h(transport.node, src, dst, data)
+        if self.net.send_error(transport, src, dst):
+            return
         if dst in self.groups:
             for s in list(self.groups[dst]):
                 if s.node == transport.node and not self.cfg.get("mc_loop", False):
@@ -580,6 +585,30 @@ class NetFaults:
         self.fifo = False
         self.flow_last = {}
 
+    def send_error(self, transport, src, dst):
+        """a failing sendto() system call (ENETUNREACH, ENOBUFS, EPERM from a firewall, ...): the datagram reaches no
+        receiver and the sender's protocol is told through error_received(), synchronously inside sendto(), which
+        returns normally - exactly what asyncio's selector datagram transport does. The "tx" record is already
+        written: the library did hand the datagram over, at that time, with that content."""
+        sim = self.sim
+        now = sim.loop._now
+        for i, w in enumerate(self.windows):
+            if w["kind"] != "senderr" or not (w["t0"] <= now < w["t1"]):
+                continue
+            if "node" in w and w["node"] != src[0]:
+                continue
+            flow = (src, dst, "senderr")
+            n = sim.flow_n[flow]
+            sim.flow_n[flow] += 1
+            if H(sim.seed, "senderr", i, flow, n) >= w["rate"]:
+                continue
+            sim.stats["send_error"] += 1
+            sim.rec("send-error", transport.actor, (src, dst))
+            if transport.proto is not None:
+                transport.proto.error_received(OSError(101, "Network is unreachable"))
+            return True
+        return False
+
     def route(self, src, sock, data):
         sim = self.sim
         now = sim.loop._now
@@ -598,6 +627,8 @@ class NetFaults:
             if not (w["t0"] <= now < w["t1"]):
                 continue
             if "node" in w and w["node"] not in (src[0], sock.addr[0]):
+                continue
+            if w["kind"] == "senderr":
                 continue
             u = H(sim.seed, "netfault", i, flow, n)
             if u >= w["rate"]:
